@@ -1576,7 +1576,7 @@ void Handler::handleIdentifiedArg( detail::TypedArgBase* hdl,
                                    const string& value)
 {
 
-   mConstraints.argumentIdentified( key);
+   mConstraints.argumentIdentified( hdl->key());
    executeGlobalConstraints( hdl->key());
 
    if (mVerbose)
